@@ -1,4 +1,5 @@
 import Proofs.LoadBuild
+import Proofs.LoadPerm
 
 /-! Helper lemmas for C03, part 8: the model's domain predicate is invariant under permutations. -/
 
@@ -54,5 +55,124 @@ theorem inDomain_perm {s1 s2 : List Stmt} (hp : s1.Perm s2) : inDomain s1 = inDo
   · have ha2 : accepted s2 = false := by rw [← hacc]; simpa using ha
     have ha1 : accepted s1 = false := by simpa using ha
     simp [ha1, ha2]
+
+/-! ### the domain predicate implies the hypotheses of the permutation theorems -/
+
+theorem mem_insOf {ss : List Stmt} {k : String} {x : Option (List String) × List Val} (h : x ∈ insOf ss k) :
+    Stmt.insert k x.1 x.2 ∈ ss := by
+  unfold insOf at h
+  obtain ⟨s, hs, hsx⟩ := List.mem_filterMap.mp h
+  cases s with
+  | insert k' ns vs =>
+    by_cases hk : k' = k
+    · simp only [hk, if_true, Option.some.injEq] at hsx
+      subst hsx; subst hk; exact hs
+    · simp [hk] at hsx
+  | cls _ _ => simp at hsx
+  | assoc _ => simp at hsx
+  | uniq _ _ _ => simp at hsx
+
+theorem uniqOf_cons_other (s : Stmt) (ss : List Stmt) (k : String) (h : ∀ k' n as, s ≠ .uniq k' n as) :
+    uniqOf (s :: ss) k = uniqOf ss k := by
+  unfold uniqOf
+  rw [List.filterMap_cons]
+  cases s with
+  | uniq k' n as => exact absurd rfl (h k' n as)
+  | cls _ _ => rfl
+  | assoc _ => rfl
+  | insert _ _ _ => rfl
+
+theorem uniqKeys_cons_other (s : Stmt) (ss : List Stmt) (h : ∀ k' n as, s ≠ .uniq k' n as) :
+    (s :: ss).filterMap uniqKey = ss.filterMap uniqKey := by
+  rw [List.filterMap_cons]
+  cases s with
+  | uniq k' n as => exact absurd rfl (h k' n as)
+  | cls _ _ => rfl
+  | assoc _ => rfl
+  | insert _ _ _ => rfl
+
+theorem mem_uniqKeys_of_uniqOf {ss : List Stmt} {k n : String} (h : n ∈ (uniqOf ss k).map (·.1)) :
+    (k, n) ∈ ss.filterMap uniqKey := by
+  induction ss with
+  | nil => simp [uniqOf] at h
+  | cons s ss ih =>
+    cases s with
+    | uniq k' n' as =>
+      rw [uniqOf_cons_uniq] at h
+      rw [List.filterMap_cons]
+      by_cases hc : k' = k ∧ as.isEmpty = false
+      · rw [if_pos hc, List.map_cons, List.mem_cons] at h
+        have hk : uniqKey (.uniq k' n' as) = some (k, n') := by simp [uniqKey, hc.2, hc.1]
+        rw [hk]
+        rcases h with rfl | h
+        · exact List.mem_cons_self
+        · exact List.mem_cons_of_mem _ (ih h)
+      · rw [if_neg hc] at h
+        cases uniqKey (.uniq k' n' as) with
+        | none => exact ih h
+        | some q => exact List.mem_cons_of_mem _ (ih h)
+    | cls c as =>
+      rw [uniqOf_cons_other _ _ _ (by intro _ _ _ he; cases he)] at h
+      rw [uniqKeys_cons_other _ _ (by intro _ _ _ he; cases he)]
+      exact ih h
+    | assoc a =>
+      rw [uniqOf_cons_other _ _ _ (by intro _ _ _ he; cases he)] at h
+      rw [uniqKeys_cons_other _ _ (by intro _ _ _ he; cases he)]
+      exact ih h
+    | insert c ns vs =>
+      rw [uniqOf_cons_other _ _ _ (by intro _ _ _ he; cases he)] at h
+      rw [uniqKeys_cons_other _ _ (by intro _ _ _ he; cases he)]
+      exact ih h
+
+theorem uniqNames_nodup_of_keys (ss : List Stmt) (k : String) (h : (ss.filterMap uniqKey).Nodup) :
+    ((uniqOf ss k).map (·.1)).Nodup := by
+  induction ss with
+  | nil => simp [uniqOf]
+  | cons s ss ih =>
+    cases s with
+    | uniq k' n as =>
+      rw [uniqOf_cons_uniq]
+      rw [List.filterMap_cons] at h
+      by_cases hc : k' = k ∧ as.isEmpty = false
+      · have hk : uniqKey (.uniq k' n as) = some (k, n) := by simp [uniqKey, hc.2, hc.1]
+        rw [hk] at h
+        obtain ⟨hnot, hrest⟩ := List.nodup_cons.mp h
+        rw [if_pos hc, List.map_cons, List.nodup_cons]
+        exact ⟨fun hin => hnot (mem_uniqKeys_of_uniqOf hin), ih hrest⟩
+      · rw [if_neg hc]
+        cases hk : uniqKey (.uniq k' n as) with
+        | none => rw [hk] at h; exact ih h
+        | some q => rw [hk] at h; exact ih (List.nodup_cons.mp h).2
+    | cls c as =>
+      rw [uniqOf_cons_other _ _ _ (by intro _ _ _ he; cases he)]
+      rw [uniqKeys_cons_other _ _ (by intro _ _ _ he; cases he)] at h
+      exact ih h
+    | assoc a =>
+      rw [uniqOf_cons_other _ _ _ (by intro _ _ _ he; cases he)]
+      rw [uniqKeys_cons_other _ _ (by intro _ _ _ he; cases he)] at h
+      exact ih h
+    | insert c ns vs =>
+      rw [uniqOf_cons_other _ _ _ (by intro _ _ _ he; cases he)]
+      rw [uniqKeys_cons_other _ _ (by intro _ _ _ he; cases he)] at h
+      exact ih h
+
+/-- **the model's domain implies the hypotheses of `build_perm`**: identifier names are unique per class, the
+    INSERTs of a kind without CREATE TABLE infer the same class, no key list repeats an attribute name -/
+theorem guards_of_inDomain (ss : List Stmt) (h : inDomain ss = true) :
+    UniqNamesOk ss ∧ InferAgree ss ∧ (∀ a ∈ popAssocs ss, KeysOk a) ∧ accepted ss = true := by
+  unfold inDomain at h
+  simp only [Bool.and_eq_true, decide_eq_true_eq, List.all_eq_true] at h
+  obtain ⟨⟨⟨⟨⟨hacc, _⟩, hassoc⟩, _⟩, huniq⟩, hins⟩ := h
+  refine ⟨fun k => uniqNames_nodup_of_keys ss k huniq, ?_, ?_, hacc⟩
+  · intro k hnone x hx y hy
+    have hxs := hins _ (mem_insOf hx)
+    simp only [insertInDomain, hnone, Bool.and_eq_true, List.all_eq_true] at hxs
+    have := hxs.2 _ (mem_insOf hy)
+    simp only [bne_self_eq_false, Bool.false_or, beq_iff_eq] at this
+    exact this.symm
+  · intro a ha
+    have := hassoc a ha
+    simp only [assocInDomain, Bool.and_eq_true, decide_eq_true_eq] at this
+    exact ⟨this.1.1.1.1, this.1.1.1.2⟩
 
 end Pyx.Load
